@@ -221,13 +221,22 @@ def bg_correct(raw, bg, df=None):
         df = raw.copy()
         df[:] = 0
 
+    if not (set(raw.dims) == set(bg.dims) == set(df.dims)):
+        raise BadImage("raw and background images must have the same axes")
+    bg = bg.transpose(*raw.dims)
+    df = df.transpose(*raw.dims)
+
     if not (raw.shape == bg.shape == df.shape and list(get_spacing(raw)) == list(get_spacing(bg)) == list(get_spacing(df))):
         raise BadImage("raw and background images must have the same shape and spacing")
 
-    # pixel by pixel: the images may sit on different coordinates (a cropped
+    # pixel by pixel: the images may sit on different positions (a cropped
     # hologram, another z), and arithmetic between labelled arrays would keep
-    # only the coordinates they share
-    holo = (raw - df.values) / zero_filter(bg - df.values).values
+    # only the positions they share; any other axis (colour channels) is
+    # still paired by its labels
+    pixels = {dim: raw[dim] for dim in ('x', 'y', 'z') if dim in raw.dims}
+    bg = bg.assign_coords(pixels)
+    df = df.assign_coords(pixels)
+    holo = (raw - df) / zero_filter(bg - df)
     holo = copy_metadata(raw, holo)
 
     if hasattr(holo, 'noise_sd') and hasattr(bg, 'noise_sd') and holo.noise_sd is None:
